@@ -120,7 +120,7 @@ Theorem src_strides groups p rep tot :
   exists env', aexec groups dims p gen_strides None (as0 rep tot)
     = Some (mk_as env' rep tot (map (fun d => prod_list (firstn d sizes)) (seq 1 (dims - 1)))).
 Proof.
-  cbv zeta. unfold gen_strides. cbn [aexec aeval lset as0 s_env s_report s_total s_strides].
+  cbv zeta. unfold gen_strides. cbn [aexec aeval lset as0 s_env s_report s_total s_strides env_get String.eqb Ascii.eqb Bool.eqb].
   rewrite ?Nat.sub_0_r.
   match goal with |- context [dim_loop ?st ?cnt ?i0 ?s1] =>
     first [ pose proof (fun H => strides_loop groups i0 st H cnt i0 s1) as SL;
